@@ -25,7 +25,7 @@ def run_stream(ck, coins, stream, release=False, check_ref=True, label=''):
         a = norm(a)
         rt, ra, rp = scripts.ref(s, coin)
         replay = 'script %s %s' % (coin, s.hex() if s else '-')
-        if a.startswith('PANIC'):
+        if a.startswith(('PANIC', 'ABORT')):
             panics += 1
             ck.disagreement('script evaluation panicked%s (%s, %s)' % (label, coin, tag), 'script=%s impl=%s model=%s' % (s.hex()[:200], a, b), None, in_domain=True, extra_replay=replay); continue
         if a != b:
